@@ -496,10 +496,13 @@ pub(crate) mod c19 {
         let depth: u8 = kani::any();
         let v = CertVerifier { cert: &cert, crypto: &crypto, utc_time: any_time(), depth };
 
-        let ok = v.verify_usage().is_ok();
+        // `root_self_check`: the step is the self-check of a (lone or last) root - `finalise` - rather than
+        // a chain step towards a parent (fix ccca100: at depth 0 the two positions are told apart)
+        let root_self_check: bool = kani::any();
+        let ok = v.verify_usage(root_self_check).is_ok();
 
         let expected = if depth == 0 {
-            profile_ok(&p, Pos::Leaf) || profile_ok(&p, Pos::LoneRoot)
+            if root_self_check { profile_ok(&p, Pos::LoneRoot) } else { profile_ok(&p, Pos::Leaf) }
         } else {
             profile_ok(&p, Pos::Authority { below: depth - 1 })
         };
@@ -532,6 +535,8 @@ pub(crate) mod c19 {
             "C19.usage.authority_within_path_len"
         );
         kani::assert(crypto.calls.get() == 0, "C19.usage.no_primitive_involved");
+        // the leaf of a chain is a NOC, a root checked against itself is a CA certificate
+        kani::assert(!ok || depth != 0 || root_self_check == is_ca_typed(&p), "C19.usage.leaf_is_noc_and_lone_root_is_ca");
 
         kani::cover!(ok && depth == 0 && !is_ca_typed(&p), "leaf accepted");
         kani::cover!(ok && depth == 0 && is_ca_typed(&p), "lone root accepted");
